@@ -905,7 +905,7 @@ class Folder:
                             self.trace.extend(sub.trace)
                         return r
                     if getattr(t, "cls", None) is not None and isinstance(f, ast.Attribute) and t.params and t.params[0] in ("self", "cls") \
-                            and all(not isinstance(x, Sym) for x in list(args) + list(kw.values())):
+                            and (self.fold_all_methods or all(not isinstance(x, Sym) for x in list(args) + list(kw.values()))):
                         recv = self.ev(f.value, env)
                         def _stores_state(fn):
                             for x in ast.walk(fn):
